@@ -280,3 +280,188 @@ def retarget_contract(shape):
         else:
             H.check("C10:unreachable-layers-are-not-touched", len(layer.resolved_with) == 0)
     H.check("C10:unreachable-layers-are-not-touched", len(outsider.resolved_with) == 0)
+
+
+# ----------------------------------------------------------------------------------------------- SNREF call sites
+# The call sites of resolve_snref named by the property (parameter -> DOP, table key -> table / table row, table struct
+# -> table key, field -> structure / env-data description, table row -> structure / DOP, multiplexer case -> structure):
+# each passes a name, a collection and an expected type.  Contract: the attribute is bound to the uniquely named object
+# of the collection the ODX context prescribes; with none or several candidates of that name loading fails in strict
+# mode - an object of the same name in a neighbouring collection is never bound instead.
+from odxtools.basicstructure import BasicStructure  # noqa: E402
+from odxtools.dataobjectproperty import DataObjectProperty  # noqa: E402
+from odxtools.endofpdufield import EndOfPduField  # noqa: E402
+from odxtools.environmentdatadescription import EnvironmentDataDescription  # noqa: E402
+from odxtools.field import Field  # noqa: E402
+from odxtools.multiplexercase import MultiplexerCase  # noqa: E402
+from odxtools.nameditemlist import NamedItemList  # noqa: E402
+from odxtools.parameters.parameterwithdop import ParameterWithDOP  # noqa: E402
+from odxtools.parameters.tablekeyparameter import TableKeyParameter  # noqa: E402
+from odxtools.parameters.tablestructparameter import TableStructParameter  # noqa: E402
+from odxtools.parameters.systemparameter import SystemParameter  # noqa: E402
+from odxtools.structure import Structure  # noqa: E402
+from odxtools.table import Table  # noqa: E402
+from odxtools.tablerow import TableRow  # noqa: E402
+
+
+class GhostDDD:
+
+    def __init__(self):
+        self.data_object_props = NamedItemList([])
+        self.structures = NamedItemList([])
+        self.env_data_descs = NamedItemList([])
+        self.tables = NamedItemList([])
+        self.all_data_object_properties = NamedItemList([])
+
+
+class GhostCtxLayer:
+
+    def __init__(self, ddd):
+        self.diag_data_dictionary_spec = ddd
+
+
+def _obj(cls, name, tag):
+    o = cls.__new__(cls)
+    o.short_name = name
+    o.tag = tag
+    o.sdgs = []
+    return o
+
+
+# site -> (class of the referring object, attribute holding the name, attribute bound, class of the candidates,
+#          collection searched, neighbouring collection holding a same-named decoy of another class)
+SITES = {
+    "parameter-dop": (SystemParameter, "dop_snref", "_dop", DataObjectProperty, "all_data_object_properties", "tables"),
+    "tablekey-table": (TableKeyParameter, "table_snref", "_table", Table, "tables", "structures"),
+    "tablekey-row": (TableKeyParameter, "table_row_snref", "_table_row", TableRow, "rows-of-the-table", "tables"),
+    "tablestruct-key": (TableStructParameter, "table_key_snref", "_table_key", TableKeyParameter,
+                        "parameters-of-the-context", "tables"),
+    "field-structure": (EndOfPduField, "structure_snref", "_structure", Structure, "structures",
+                        "env_data_descs"),
+    "field-envdatadesc": (EndOfPduField, "env_data_desc_snref", "_env_data_desc", EnvironmentDataDescription,
+                          "env_data_descs", "structures"),
+    "tablerow-structure": (TableRow, "structure_snref", "_structure", Structure, "structures", "data_object_props"),
+    "tablerow-dop": (TableRow, "dop_snref", "_dop", DataObjectProperty, "data_object_props", "structures"),
+    "muxcase-structure": (MultiplexerCase, "structure_snref", "_structure", Structure, "structures",
+                          "data_object_props"),
+}
+_OTHER_SNREFS = ["dop_snref", "table_snref", "table_row_snref", "table_key_snref", "structure_snref",
+                 "env_data_desc_snref"]
+
+
+@harness(props=["C10"], strength="B", family=lambda t, s: [{"site": k} for k in SITES],
+         bound="nine SNREF call sites; the searched collection holds 0..2 objects of the referenced name (symbolic) plus "
+         "one object of another name, a neighbouring collection holds a same-named object of another class",
+         functions=[ParameterWithDOP._resolve_snrefs, TableKeyParameter._resolve_snrefs,
+                    TableStructParameter._resolve_snrefs, Field._resolve_snrefs, TableRow._resolve_snrefs,
+                    MultiplexerCase._resolve_snrefs, resolve_snref],
+         covers=["unique", "none", "ambiguous"])
+def snref_call_sites(site):
+    """every short-name reference is bound to the uniquely named object of the collection its context prescribes, or
+    loading fails in strict mode"""
+    cls, name_attr, bound_attr, cand_cls, where, decoy_where = SITES[site]
+    strict = H.bool("strict")
+    H.set_global(X, "strict_mode", strict)
+    count = H.pick("candidates_with_that_name", [0, 1, 2])
+    cands = [_obj(cand_cls, "t", i) for i in range(count)]
+    other = _obj(cand_cls, "u", 9)
+    pool = [other] + cands if H.bool("other_name_first") else cands + [other]
+    ddd = GhostDDD()
+    # a same-named object of another class next door: never to be bound
+    decoy_cls = Table if decoy_where == "tables" else Structure if decoy_where == "structures" else \
+        EnvironmentDataDescription if decoy_where == "env_data_descs" else DataObjectProperty
+    if decoy_where != where:
+        setattr(ddd, decoy_where, NamedItemList([_obj(decoy_cls, "t", 7)]))
+    ref = _obj(cls, "referrer", 0)
+    for a in _OTHER_SNREFS:
+        if hasattr(cls, "__dataclass_fields__") and a in cls.__dataclass_fields__:
+            setattr(ref, a, None)
+    setattr(ref, name_attr, "t")
+    ctx = SnRefContext(database=None)
+    ctx.diag_layer = GhostCtxLayer(ddd)
+    if where == "rows-of-the-table":
+        tbl = _obj(Table, "tbl", 5)
+        tbl._table_rows = NamedItemList(pool)
+        ref._table = tbl
+    elif where == "parameters-of-the-context":
+        ctx.parameters = NamedItemList(pool)
+    else:
+        setattr(ddd, where, NamedItemList(pool))
+    if cls is TableRow:
+        # what TableRow._resolve_snrefs does before the references: the key is converted using the table's key DOP
+        tbl = _obj(Table, "tbl", 5)
+        tbl._key_dop = None
+        ref._table = tbl
+        ref.key_raw = "1"
+    try:
+        ref._resolve_snrefs(ctx)
+    except OdxError:
+        H.check("C10:snref-error-only-if-not-uniquely-resolvable", H.And(strict, count != 1))
+        return
+    bound = getattr(ref, bound_attr, None)
+    if count == 1:
+        H.cover("unique")
+        H.check("C10:snref-binds-to-the-uniquely-named-object-of-its-context", bound is cands[0])
+    else:
+        H.cover("none" if count == 0 else "ambiguous")
+        H.check("C10:unresolvable-or-ambiguous-snref-is-an-error-in-strict-mode", H.Not(strict))
+
+
+# ---------------------------------------------------------------------------------------------- frame: doc_frags
+# The fragment list handed to a from_et function is shared between all siblings parsed from one container.  A function
+# that adds the fragment of its own layer must work on a copy (DiagLayerRaw.from_et does), otherwise the identifiers of
+# one layer are registered in the fragments of its siblings and fragment-relative references bind to the wrong object.
+# Frame obligation, decided syntactically per function with a parameter named doc_frags: while the name still denotes
+# the caller's list (i.e. before it is rebound to a fresh object) the list is not mutated.
+import ast  # noqa: E402
+
+from pyvc.static_checks import repo_py_files, static  # noqa: E402
+
+_MUTATORS = {"append", "extend", "insert", "pop", "remove", "clear", "sort", "reverse", "__iadd__", "__setitem__",
+             "__delitem__"}
+
+
+def _doc_frags_frame(fn):
+    rebound = None
+    events = []
+    for n in ast.walk(fn):
+        if isinstance(n, (ast.Assign, ast.AnnAssign)):
+            targets = n.targets if isinstance(n, ast.Assign) else [n.target]
+            for t in targets:
+                if isinstance(t, ast.Name) and t.id == "doc_frags":
+                    v = n.value
+                    # an alias of itself is no fresh object
+                    if not (isinstance(v, ast.Name) and v.id == "doc_frags"):
+                        rebound = n.lineno if rebound is None else min(rebound, n.lineno)
+                elif isinstance(t, ast.Subscript) and isinstance(t.value, ast.Name) and t.value.id == "doc_frags":
+                    events.append((n.lineno, "item assignment"))
+        elif isinstance(n, ast.AugAssign) and isinstance(n.target, ast.Name) and n.target.id == "doc_frags":
+            events.append((n.lineno, "augmented assignment (in-place for lists)"))
+        elif isinstance(n, ast.Delete):
+            for t in n.targets:
+                if isinstance(t, ast.Subscript) and isinstance(t.value, ast.Name) and t.value.id == "doc_frags":
+                    events.append((n.lineno, "item deletion"))
+        elif isinstance(n, ast.Call) and isinstance(n.func, ast.Attribute) and isinstance(n.func.value, ast.Name) \
+                and n.func.value.id == "doc_frags" and n.func.attr in _MUTATORS:
+            events.append((n.lineno, f".{n.func.attr}()"))
+    return [(ln, what) for (ln, what) in events if rebound is None or ln < rebound or
+            (ln == rebound and "augmented" in what)]
+
+
+@static("C10")
+def doc_frags_frame(tier):
+    out = []
+    for path in repo_py_files():
+        rel = path.replace("/repo/", "")
+        tree = ast.parse(open(path).read())
+        for fn in ast.walk(tree):
+            if not isinstance(fn, (ast.FunctionDef, ast.AsyncFunctionDef)):
+                continue
+            names = [a.arg for a in fn.args.args + fn.args.kwonlyargs + fn.args.posonlyargs]
+            if "doc_frags" not in names:
+                continue
+            bad = _doc_frags_frame(fn)
+            out.append({"name": f"doc-frags-frame[{rel}:{fn.name}@{fn.lineno}]", "ok": not bad,
+                        "detail": [f"{rel}:{ln}: {what} on the caller's fragment list" for (ln, what) in bad] or
+                        "the caller's fragment list is not modified"})
+    return out
